@@ -632,3 +632,17 @@ Theorem C11_castle_wall_program : forall fh fw kind num side st ans,
        single_loop_b (lattice (S fh) (S fw)) (fun k => isb (getz ans k)) && cw_local fh fw kind num side ans = true).
 Proof. exact castle_wall_program. Qed.
 Print Assumptions C11_castle_wall_program.
+
+(* Tier 1, lits, every board shape and every room layout (rooms given as region ids 0..k-1; an id that no cell
+   carries is an empty room): the tetromino of each room through the three posted counting conditions
+   (LitsClassify.classify: four cells, each with a neighbour in the room, exactly three adjacent pairs = a translate
+   of one of the 18 fixed non-square tetrominoes), the auxiliary variables num_straight / has_t existentially
+   (they carry the kind L/I/T/S of the room's shape), connectivity of the black cells through property C04's
+   theorems (LitsProofs.lits_compose: variables declared after the connectivity helper) *)
+From Cspuz Require Import Puzzle.Rules_lits Puzzle.Lits Puzzle.LitsProofs.
+Theorem C11_lits_exact : forall h w region st ans,
+  solve_lits_model (List.cons (List.cons (Z.of_nat h) (List.cons (Z.of_nat w) nil)) (List.cons region nil)) = Ok st ->
+  ((exists en, model_of gsem_avc en st /\ reads st en (seq 0 (h * w)) = ans)
+   <-> rules_lits (List.cons (List.cons (Z.of_nat h) (List.cons (Z.of_nat w) nil)) (List.cons region nil)) ans = true).
+Proof. exact lits_exact. Qed.
+Print Assumptions C11_lits_exact.
